@@ -624,6 +624,14 @@ func (g *irGen) union(depth int, po plannedObj) ast.Type {
 		}
 		fallthrough
 	case r < 82:
+		if g.rng.Chance(0.35) {
+			// one kind, not all constants: `"auto" | string` (collapses to a plain scalar in Go and Java)
+			g.tag("union:constant|same-kind")
+			if g.rng.Bool() {
+				return ast.NewDisjunction([]ast.Type{ast.String(ast.Value("auto")), ast.String()})
+			}
+			return ast.NewDisjunction([]ast.Type{ast.NewScalar(ast.KindInt64), ast.NewScalar(ast.KindInt64, ast.Value(int64(0)))})
+		}
 		g.tag("union:constants")
 		return ast.NewDisjunction([]ast.Type{ast.String(ast.Value("on")), ast.String(ast.Value("off")), ast.String(ast.Value("auto"))}[:g.rng.Range(2, 3)])
 	case r < 92:
